@@ -332,7 +332,7 @@ func init() {
 		Level: "exploration",
 		Rule: "exhaustive enumeration (serialising is repeated after the first buffer was consumed partly and fully: same bytes): (a) all tags 0..255 × all value lengths 0..1024 (+5 fixed longer lengths) set on hc's container, wire bytes compared with an independent TLV8 encoder and parsed back; " +
 			"(b) all Set sequences of length ≤3 (quick) / ≤4 (thorough) over 2 tags × lengths {0,1,254,255,256,510,511}, each also with a lookup of every tag between the sets and with the caller reusing and wiping ONE value buffer after every Set; (c) all byte strings of length ≤2 (quick) / ≤3 (thorough) and every prefix / single-byte edit / deletion / insertion of 3 valid encodings as parser input. " +
-			"distinct_nontrivial = distinct (operation kind, length-class tuple) and parser outcome classes observed",
+			"distinct_nontrivial = distinct (operation kind, length-class tuple) and parser outcome classes observed Plus, in a subprocess built with a scheduling point before EVERY statement of hc's packages (textual insertion through go build -overlay): every interleaving with at most 1 (thorough 2) preemptions of pairs of operations on disjoint objects — and, where the property is about served requests, of pairs of handlers on two verified connections of one accessory touching different characteristics — each side must observe exactly what it observes when the two run one after the other (module-level mutable state is what makes them differ).",
 		Run:    c16Run,
 		Budget: func(string) time.Duration { return 20 * time.Minute },
 		Replay: func(c *fw.Ctx, raw json.RawMessage) {
